@@ -73,17 +73,35 @@ func (w *failWriter) seen() int {
 
 // newTeeSess negotiates a session through xmpp.NewNegotiator (no features: ready after the first
 // features list) with the given tee writers; either may be nil.
-func newTeeSess(teeIn, teeOut io.Writer) (*tsess, error) {
+func newTeeSess(teeIn, teeOut io.Writer) (*tsess, error) { return newTeeSessRole(teeIn, teeOut, false) }
+
+// newTeeSessRole: recv = the session is the receiving entity (xmpp.ReceiveSession; the peer
+// selects the one feature that makes the session ready).
+func newTeeSessRole(teeIn, teeOut io.Writer, recv bool) (*tsess, error) {
 	c1, c2 := net.Pipe()
 	t := &tsess{peer: c2, out: &common.SafeBuffer{}, handled: make(chan string, 16), serveRet: make(chan error, 1)}
 	t.cst = &connState{failAt: -1}
-	go c2.Write([]byte(teeHeader))
+	hello := teeHeader
+	if recv {
+		hello = `<?xml version="1.0"?><stream:stream to='example.net' from='me@example.net' version='1.0' xmlns='jabber:client' xmlns:stream='http://etherx.jabber.org/streams'><ready xmlns="` + nsReady + `"/>`
+	}
+	go c2.Write([]byte(hello))
 	ctx, cancel := context.WithTimeout(context.Background(), 10*time.Second)
 	defer cancel()
-	s, err := xmpp.NewSession(ctx, remoteJID, localJID.Bare(), conn{Conn: c1, out: t.out, st: t.cst}, 0,
-		xmpp.NewNegotiator(func(*xmpp.Session, *xmpp.StreamConfig) xmpp.StreamConfig {
-			return xmpp.StreamConfig{TeeIn: teeIn, TeeOut: teeOut}
-		}))
+	neg := xmpp.NewNegotiator(func(*xmpp.Session, *xmpp.StreamConfig) xmpp.StreamConfig {
+		cfg := xmpp.StreamConfig{TeeIn: teeIn, TeeOut: teeOut}
+		if recv {
+			cfg.Features = []xmpp.StreamFeature{readyFeature()}
+		}
+		return cfg
+	})
+	var s *xmpp.Session
+	var err error
+	if recv {
+		s, err = xmpp.ReceiveSession(ctx, conn{Conn: c1, out: t.out, st: t.cst}, 0, neg)
+	} else {
+		s, err = xmpp.NewSession(ctx, remoteJID, localJID.Bare(), conn{Conn: c1, out: t.out, st: t.cst}, 0, neg)
+	}
 	if err != nil {
 		c2.Close()
 		return nil, err
@@ -119,16 +137,23 @@ func (t *tsess) connWrites() int {
 
 // teeHist: Close, the transmit entry points and the peer's closing tag (Serve's own shutdown) on
 // a session whose output is copied to a tee writer that fails from operation failFrom on.
-func (c *ctxT) teeHist(failFrom int, ops []string) {
+func (c *ctxT) teeHist(failFrom int, ops []string) { c.teeHistRole(false, failFrom, ops) }
+
+// teeHistRole: recv = the tee'd session is the receiving entity (line `teer`).
+func (c *ctxT) teeHistRole(recv bool, failFrom int, ops []string) {
 	r := c.r
 	ff := "-"
 	if failFrom >= 0 {
 		ff = fmt.Sprint(failFrom)
 	}
-	line := fmt.Sprintf("tee %s %s", ff, common.Join(ops, ","))
+	word := "tee"
+	if recv {
+		word = "teer"
+	}
+	line := fmt.Sprintf("%s %s %s", word, ff, common.Join(ops, ","))
 	lines := []string{r.Prop + " " + line}
 	teeOut, teeIn := &failWriter{}, &failWriter{}
-	t, err := newTeeSess(teeIn, teeOut)
+	t, err := newTeeSessRole(teeIn, teeOut, recv)
 	if err != nil {
 		r.Line(line, "ERR "+err.Error())
 		return
@@ -630,6 +655,14 @@ func (c *ctxT) envCases() {
 			c.teeHist(k, ops)
 		}
 	})
+	for n := 1; n <= 2; n++ {
+		enumOver(teeOps, n, func(ops []string) {
+			for k := -1; k < n; k++ {
+				c.teeHistRole(true, k, ops)
+			}
+		})
+	}
+	r.Exhaustive = append(r.Exhaustive, "the same in the receiving role (xmpp.ReceiveSession), all histories of length <= 2")
 	r.Exhaustive = append(r.Exhaustive, fmt.Sprintf("sessions negotiated by xmpp.NewNegotiator with TeeIn and TeeOut: all histories of length <= 2 over %v (length 3 over %v; thorough: all) x the operation from which the TeeOut writer fails (or never)", teeOps, teeSmall))
 	r.Mark("case write deadlines")
 	for n := 1; n <= 2; n++ {
